@@ -8,7 +8,7 @@
        input against the recorded output. *)
 From Coq Require Import List Arith ZArith QArith Qabs Qround Bool.
 From TLV Require Import Base.PyList Base.Tensor Corr.Common.
-From TLV Require Import Model.Constraints Base.Ops Model.Prox Model.ConstraintsOps Model.ConstraintsStop.
+From TLV Require Import Model.Constraints Base.Ops Model.Prox Model.ConstraintsOps Model.ConstraintsStop Model.ConstraintsNc.
 Import ListNotations.
 
 (* Python values used as parameters: bool / int / float (None inside lists is the `None` of option) *)
@@ -112,6 +112,16 @@ Definition model_admm (n : nat) (specs : list (@zspec pv)) (order n_iter : nat) 
 (* proximal_operator called on its own: which operator produced the output (PvRaw = the input itself) *)
 Definition model_prox (n : nat) (specs : list (@zspec pv)) (order : nat) : res prov :=
   if Nat.eqb (length specs) 12 then proximal_operator tag_op (zvalidate pv_truthy n (with_names specs)) order PvRaw else Err.
+
+(* n_const=None (Model/ConstraintsNc.v): admm returns the unconstrained least-squares solution (tag PvRaw), proximal_operator its input *)
+Definition model_admm_nc (specs : list (@zspec pv)) (order n_iter : nat) : res prov :=
+  if Nat.eqb (length specs) 12 then
+    rbind (admm_nc pv_truthy tag_op (fun _ _ => PvRaw) (fun _ _ => PvRaw) None (with_names specs) order n_iter (fun _ _ => PvOther)
+                   (fun _ _ _ _ => false) PvRaw (PvUser 0) PvOther)
+          (fun r => Ok (fst (fst r)))
+  else Err.
+Definition model_prox_nc (specs : list (@zspec pv)) (order : nat) : res prov :=
+  if Nat.eqb (length specs) 12 then proximal_operator_nc pv_truthy tag_op None (with_names specs) order PvRaw else Err.
 
 (* (e) feasibility of a returned / dispatched factor, decided in Coq on the exact rational value of the float64 entries
    (rows, row-major).  Transcription of the Python predicates of harness/props/C11.py with a LOOSER tolerance (1e-8 instead
@@ -246,6 +256,8 @@ Inductive case :=
           (n_outer n_inner : nat) (tol : bool) (c : crit) (cerr_small : bool) (expected : res (list prov))
 | CAdmm (id n : nat) (specs : list (@zspec pv)) (order n_iter : nat) (expected : res prov)
 | CProx (id n : nat) (specs : list (@zspec pv)) (order : nat) (expected : res prov)
+| CAdmmNc (id : nat) (specs : list (@zspec pv)) (order n_iter : nat) (expected : res prov)
+| CProxNc (id : nat) (specs : list (@zspec pv)) (order : nat) (expected : res prov)
 | CFeas (id : nat) (k : kind) (p : pv) (rows : list (list Q))
 | CCall (id : nat) (k : kind) (p : pv) (aux : Q) (rows out : list (list Q)) (atol rtol : Q).
 
@@ -257,11 +269,13 @@ Definition agree (c : case) : bool :=
       res_eqb (list_eqb prov_eqb) (model_trace_c n specs ui nin wone eok fixed no ni tol c ce) expected
   | CAdmm _ n specs order ni expected => res_eqb prov_eqb (model_admm n specs order ni) expected
   | CProx _ n specs order expected => res_eqb prov_eqb (model_prox n specs order) expected
+  | CAdmmNc _ specs order ni expected => res_eqb prov_eqb (model_admm_nc specs order ni) expected
+  | CProxNc _ specs order expected => res_eqb prov_eqb (model_prox_nc specs order) expected
   | CFeas _ k p rows => feasb k p rows
   | CCall _ k p aux rows out atol rtol => call_agree k p aux rows out atol rtol
   end.
 Definition ident (c : case) : nat :=
-  match c with CTable i _ _ _ => i | CTrace i _ _ _ _ _ _ _ _ _ _ => i | CTraceC i _ _ _ _ _ _ _ _ _ _ _ _ _ => i | CAdmm i _ _ _ _ _ => i | CProx i _ _ _ _ => i | CFeas i _ _ _ => i | CCall i _ _ _ _ _ _ _ => i end.
+  match c with CTable i _ _ _ => i | CTrace i _ _ _ _ _ _ _ _ _ _ => i | CTraceC i _ _ _ _ _ _ _ _ _ _ _ _ _ => i | CAdmm i _ _ _ _ _ => i | CProx i _ _ _ _ => i | CAdmmNc i _ _ _ _ => i | CProxNc i _ _ _ => i | CFeas i _ _ _ => i | CCall i _ _ _ _ _ _ _ => i end.
 Definition failing := failing_ids agree ident.
 
 (* ------------------------------------------------------------------ (g) static tie: pieces of the model regenerated from the CURRENT
